@@ -172,7 +172,9 @@ func ZZ_C15_Fuzzy() {
 	n1 := zz.Str("name1", 3, "ab:")
 	a0 := zz.Str("alias0", 2, "ab")
 	zz.Assume(n0 != "" && n1 != "" && n0 != n1 && a0 != "")
-	tasks.Set(n0, &ast.Task{Task: n0, Aliases: []string{a0}})
+	// a label is what a task is shown as, not a name it can be requested by
+	label := []string{"", "release notes"}[zz.Choose("label0", 2)]
+	tasks.Set(n0, &ast.Task{Task: n0, Label: label, Aliases: []string{a0}})
 	tasks.Set(n1, &ast.Task{Task: n1})
 	e := &Executor{Taskfile: &ast.Taskfile{Tasks: tasks}}
 	zzTrained = nil
@@ -182,6 +184,7 @@ func ZZ_C15_Fuzzy() {
 		if zz.Native() {
 			s := e.fuzzyModel.SpellCheck(n0)
 			zz.Assert(s == n0 || s == "", "trained-on-names")
+			zz.Assert(label == "" || e.fuzzyModel.SpellCheck(label) != label, "trained-on-every-name-and-alias")
 		} else {
 			has := func(w string) bool {
 				for _, t := range zzTrained {
@@ -191,7 +194,7 @@ func ZZ_C15_Fuzzy() {
 				}
 				return false
 			}
-			zz.Assert(has(n0) && has(n1) && has(a0), "trained-on-every-name-and-alias")
+			zz.Assert(has(n0) && has(n1) && has(a0) && (label == "" || !has(label)), "trained-on-every-name-and-alias")
 		}
 		_, err := e.GetTask(&Call{Task: "zzz"})
 		nf, ok := err.(*errors.TaskNotFoundError)
